@@ -3,6 +3,8 @@ import PMV.Model.StmtPrinter
 import PMV.Generated.Prec
 import PMV.Generated.Spacing
 import PMV.Generated.Stmt
+import PMV.Model.ParenTable
+import PMV.Spec.Lex
 namespace PMV.Driver.Printer
 open PMV PMV.Driver PMV.Printer
 
@@ -27,5 +29,54 @@ def unparseExpr (args : List Sexp) : Option String := do
     let e ← AstSexp.expr? e
     pure (encStr (printExpr e))
   | _ => none
+
+def perturb (t : PrecTable) (ovs : List (String × Nat)) : PrecTable :=
+  { t with
+    entries := t.entries.map fun (k, v) => match ovs.lookup k with | some v' => (k, v') | none => (k, v)
+    starMax := (ovs.lookup "#starMax").getD t.starMax
+    dictStarMax := (ovs.lookup "#dictStarMax").getD t.dictStarMax
+    powRhs := (ovs.lookup "#powRhs").getD t.powRhs
+    subscript := (ovs.lookup "#subscript").getD t.subscript }
+
+/-- `gram.check ((key val) ...) <expr>`: parenthesise with a perturbed table; report WF, Gram and the flat text
+    (spec validation: whenever Gram holds, CPython must parse the text back to the input). -/
+def gramCheck (args : List Sexp) : Option String := do
+  match args with
+  | [ovs, e] =>
+    let ovs ← (← list? ovs).mapM (fun s => match s with
+      | .list [.atom k, v] => do pure (k, ← nat? v)
+      | _ => none)
+    let e ← AstSexp.expr? e
+    let t := perturb Generated.precTable ovs
+    let p := slotExpr e (paren t e)     -- the `_expression` slot (a bare walrus / yield / tuple is not an expression)
+    let b (x : Bool) : String := if x then "1" else "0"
+    pure s!"{b (Spec.Grammar.WF e)} {b (Spec.Grammar.Gram p)} {b (TableOK t)} {encStr (Token.render Generated.spacing (flat p))}"
+  | _ => none
+
+def slotName : Slot → String
+  | .binL op => "binL:" ++ binOpName op | .binR op => "binR:" ++ binOpName op
+  | .unary op => "unary:" ++ unaryOpName op | .boolVal op => "boolVal:" ++ boolOpName op
+  | .cmpLeft => "cmpLeft" | .cmpRight => "cmpRight" | .ifBody => "ifBody" | .await => "await"
+  | .callFunc => "callFunc" | .attrValue => "attrValue" | .subValue => "subValue" | .starred => "starred"
+  | .dictStar => "dictStar" | .compIter => "compIter"
+
+def clsName : Cls → String
+  | .boolOp op => "boolOp:" ++ boolOpName op | .binOp op => "binOp:" ++ binOpName op
+  | .unaryOp op => "unaryOp:" ++ unaryOpName op | .compare => "compare" | .lambda => "lambda" | .ifExp => "ifExp"
+  | .await => "await" | .attribute => "attribute" | .subscript => "subscript" | .call => "call"
+  | .tupleNE => "tupleNE" | .tupleE => "tupleE" | .set => "set" | .list => "list" | .dict => "dict"
+  | .listComp => "listComp" | .setComp => "setComp" | .dictComp => "dictComp" | .generatorExp => "generatorExp"
+  | .atom0 => "atom0" | .yieldLike => "yieldLike"
+
+/-- `paren.violations`: the (slot, class) pairs of the current generated table that break `TableOK`,
+    and whether the comparison operators share one precedence. -/
+def parenViolations (_ : List Sexp) : Option String :=
+  let vs := violations Generated.precTable
+  some (s!"(cmpAllSame {cmpAllSame Generated.precTable}) (" ++
+    " ".intercalate (vs.map fun (s, c) => s!"({slotName s} {clsName c})") ++ ")")
+
+def spacingViolations (_ : List Sexp) : Option String :=
+  let vs := Spec.Lex.violations Generated.spacing
+  some ("(" ++ " ".intercalate (vs.map fun (p, n) => s!"({repr p} {repr n})") ++ ")")
 
 end PMV.Driver.Printer
